@@ -4,8 +4,9 @@ import IrVerif.Model.Journal
 
 `journal.slots`  : the static slot table (key, kind, operation, attr).
 `journal.ctl`    : a flat sequence of raw `__enter__` / `__exit__` calls from the pristine table;
-                   answers the table (wrapper layers + base per slot), the current journal and the
-                   journals' previous links after every step.
+                   answers the table (wrapper layers + base per slot), the current journal, the
+                   journals' previous links, captured tables and active flags after every step,
+                   and whether the `__enter__` was refused.
 `journal.run`    : a block program whose instrumented calls are scripted call trees (what the
                    original functions did in an un-journaled run); answers outcomes, the ghost
                    trace, every journal's entries, the final table and current journal.
@@ -115,8 +116,9 @@ def entryJ (e : Entry) : Json :=
     (match e.ref with | .weak o => obj [("weak", toJson o)] | .strong o => obj [("strong", toJson o)]),
     toJson e.objectId]
 
-def ctlStateJ (w : World Unit) (nj : Nat) : Json :=
-  obj [("table", tableJ w.table), ("current", optNatJ w.current),
+def ctlStateJ (w : World Unit) (nj : Nat) (refused : Bool) : Json :=
+  obj [("table", tableJ w.table), ("current", optNatJ w.current), ("refused", toJson refused),
+       ("active", Json.arr ((List.range nj).map (fun j => toJson (w.journals j).active)).toArray),
        ("previous", Json.arr ((List.range nj).map (fun j => optNatJ (w.journals j).previous)).toArray),
        ("captured", Json.arr ((List.range nj).map (fun j =>
           match (w.journals j).captured with
@@ -136,8 +138,14 @@ def handle : Handler := fun m j =>
       for e in evs do
         let jid ← getNat e "j"
         let isEnter ← getBool e "enter"
-        w := if isEnter then enter jid w else exit jid w
-        outs := outs.push (ctlStateJ w nj)
+        let mut refused := false
+        if isEnter then
+          match enter jid w with
+          | none => refused := true
+          | some w1 => w := w1
+        else
+          w := exit jid w
+        outs := outs.push (ctlStateJ w nj refused)
       return obj [("r", Json.arr outs)]
   | "journal.run" => some do
       let fuel ← getNat j "fuel"
@@ -171,6 +179,7 @@ def handle : Handler := fun m j =>
                 Json.arr ((expectedFor owner i false r.1.trace).map entryJ).toArray)).toArray),
              ("held", natsJ ((List.range nj).flatMap (fun i => heldBy (r.1.journals i)))),
              ("table", tableJ r.1.table),
+             ("active", Json.arr ((List.range nj).map (fun i => toJson (r.1.journals i).active)).toArray),
              ("current", optNatJ r.1.current)]
       return obj [("journaled", runOne b), ("plain", runOne (strip b))]
   | _ => none
